@@ -16,17 +16,16 @@ from . import core
 
 
 def reproduce(prop, paths):
-    """Re-run each reported case in this process and in a fresh interpreter."""
-    from . import replay
+    """Re-run each reported case in a fresh interpreter (alone, and - if it was recorded with the calls that
+    preceded it - after those calls).  A failure that cannot be reproduced is a defect of the machinery."""
     for path in paths:
-        msg = replay.replay_file(path)
-        if msg is None:
-            raise core.HarnessError("violation %s does not reproduce in-process" % path)
         r = subprocess.run([sys.executable, "-m", "mc.replay", path], cwd=core.VERIF,
                            capture_output=True, text=True)
         if r.returncode != 1:
             raise core.HarnessError("violation %s does not reproduce in a fresh interpreter (exit %d): %s"
                                     % (path, r.returncode, (r.stdout + r.stderr)[-500:]))
+        if "history-dependent" in r.stdout:
+            print("   note: %s is history-dependent (see replay output)" % os.path.basename(path))
 
 
 def main(argv=None):
